@@ -96,7 +96,7 @@ def _run(ctx, e2e):
             data_class = "poly3" if order >= 3 else "poly2"
         use_system = system != "triclinic" or bool(i % 2)
         ds = WF.gen_dataset(rng, system=system, nv=nv, data_class=data_class, lattice=bool((i // 2) % 2),
-                            components="needed" if use_system else "all-nonzero")
+                            components="needed" if use_system else "all-nonzero", energy_class="noncubic" if i % 5 < 2 else "bm3")
         cfg = WF.gen_settings(rng, ds, interpolator=interp, order=order, use_system=use_system,
                               tmin=float(rng.choice([0, 0, 10, 300])), dt=float(rng.choice([2, 50, 100, 500])))
         if data_class == "generic":
@@ -104,7 +104,7 @@ def _run(ctx, e2e):
             order = cfg["elast"]["settings"]["mode_gamma"]["order"]
             ds.spec = spectrum_from_lsq(ds.volumes, ds.freqs, order, ds.weights, ds.natoms)   # the polynomial a least-squares fit of that order must give
         if nv > 6 and i % 5 == 0:
-            cfg["qha"]["settings"]["order"] = int(rng.choice([4, 5]))      # QHA's own EoS order; the static pressure stays a cubic fit
+            cfg["qha"]["settings"]["order"] = int(rng.choice([2, 4, 5]))    # QHA's own EoS order (schema: any number >= 2)
         # file names and locations are the user's choice: other names, a sub-directory, settings addressed by a relative path
         if i % 4 == 1:
             cfg["qha"]["input"], cfg["elast"]["input"] = "phonons.dat", "static/elast.txt"
@@ -267,14 +267,36 @@ def judge_dataset(ctx, e2e, calc, ds, cfg, wd, case_id, cls, sample):
             perm = [int(numpy.argmin(numpy.abs(want[len(v) // 2] - fr[len(v) // 2, a]))) for a in range(3)]
             ctx.violation(f"strain-fractions:{'axis-permuted' if sorted(perm) == [0, 1, 2] and perm != [0, 1, 2] else 'mismatch'}",
                           f"{cls}: fractions {fr[j[0]]} vs d ln a_i/d ln V normalised {want[j[0]]} at V index {j[0]}", case_id, sample)
-    # ---- static pressure -------------------------------------------------------------------------------------------
-    e_fit = A.fit_eulerian_cubic(ds.volumes, ds.energies, v, times_v=False)
+    # ---- static pressure and phonon pressure ---------------------------------------------------------------------------
+    # The QHA layer fits F(T,V) = E_static + F_vib at the sampled volumes with a finite-strain polynomial of the configured
+    # order; the pressure term of the phonon part is "total minus static", so it is the phonon pressure exactly when the static
+    # pressure is the same operator applied to E_static alone: P - P_static = -d/dV fit_N(F_vib(T, V_i)).
+    eos = int(qs.get("order", 3))
+    e_fit = A.fit_eulerian_poly(ds.volumes, ds.energies[None, :], v, eos)[0]
     pst = A.discrete_pressure(e_fit, v)
     got_pst = numpy.asarray(calc.static_p_array, float)
     err = numpy.abs(got_pst - pst).max() / (numpy.abs(pst).max() + 1e-300)
-    ctx.maxi("static_pressure_err/tol", err / 1e-7)
-    if not (err <= 1e-7):
-        ctx.violation("static-pressure", f"{cls}: static pressure differs from -d(cubic fit of E)/dV by {err:.3g} (relative)", case_id, sample)
+    ctx.maxi("static_pressure_err/tol", err / 1e-6)
+    ctx.count(f"eos_order:{eos}:{getattr(ds, 'energy_class', 'bm3')}")
+    if not (err <= 1e-6):
+        pst3 = A.discrete_pressure(A.fit_eulerian_poly(ds.volumes, ds.energies[None, :], v, 3)[0], v)
+        cubic = eos != 3 and numpy.abs(got_pst - pst3).max() <= 1e-6 * (numpy.abs(pst3).max() + 1e-300)
+        ctx.violation("static-pressure:" + (f"cubic-fit-although-EoS-order-is-not-3" if cubic else "mismatch"),
+                      f"{cls}: static pressure differs from -d(order-{eos} finite-strain fit of E)/dV by {err:.3g} (relative)"
+                      + (" and equals the cubic fit" if cubic else ""), case_id, {**sample, "eos_order": eos})
+    if not numpy.any(ds.freqs[:, 0, :3] > 0):
+        fvib = A.vibrational_free_energy(ds.freqs, ds.weights, t)
+        pph = numpy.stack([A.discrete_pressure(row, v) for row in A.fit_eulerian_poly(ds.volumes, fvib, v, eos)])
+        scale_p = numpy.abs(P).max() + 1e-300
+        errp = numpy.abs((P - got_pst[None, :]) - pph).max() / scale_p
+        ctx.maxi("phonon_pressure_term_err/tol", errp / 1e-5)
+        ctx.count("phonon_pressure_fields_judged")
+        if not (errp <= 1e-5):
+            j = numpy.unravel_index(int(numpy.argmax(numpy.abs((P - got_pst[None, :]) - pph))), P.shape)
+            ctx.violation(f"pressure-term-is-not-the-phonon-pressure:EoS-order={'3' if eos == 3 else 'not-3'}",
+                          f"{cls}: total minus static pressure = {(P - got_pst[None, :])[j] * U.GPA_PER_AU:.5g} GPa at T={t[j[0]]}, V index {j[1]}, but "
+                          f"-d/dV of the order-{eos} fit of F_vib(T,V_i) = {pph[j] * U.GPA_PER_AU:.5g} GPa (E(V) class: {getattr(ds, 'energy_class', 'bm3')})",
+                          case_id, {**sample, "eos_order": eos})
     # ---- full reference tensor ------------------------------------------------------------------------------------------
     orc = A.PhononTensorOracle(ds.spec, t, v, P, got_pst, cv, e2e.obs.get("frames", []))
     ph = {p: orc.value(p, ax) for p in static_ref}
